@@ -196,6 +196,17 @@ func (qt *quotaTopology) checkParentQuotaInfo(quotaName, parentName string) erro
 		if !parentInfo.IsParent {
 			return fmt.Errorf("%v has parentName %v but the parentQuotaInfo's IsParent is false", quotaName, parentName)
 		}
+		// the quota must not become its own ancestor: walk the new parent's chain up to the root.
+		for cur, steps := parentName, 0; cur != extension.RootQuotaName && steps <= len(qt.quotaInfoMap); steps++ {
+			if cur == quotaName {
+				return fmt.Errorf("%v has parentName %v which would make it its own ancestor", quotaName, parentName)
+			}
+			curInfo, exist := qt.quotaInfoMap[cur]
+			if !exist {
+				break
+			}
+			cur = curInfo.ParentName
+		}
 	}
 	return nil
 }
